@@ -134,6 +134,14 @@ def delayProcess (mem inp : List α) : List α × List α :=
   let mem2 := if endLen ≠ 0 then setSlice om.2 (d - endLen) (inp.drop (n - endLen)) else om.2
   (om.1, mem2)
 
+/-- successive `Delay.process` calls on one `Delay` object: `(outputs, final delaymem)` -/
+def delayRun (mem : List α) : List (List α) → List (List α) × List α
+  | [] => ([], mem)
+  | b :: rest =>
+    let r := delayProcess mem b
+    let rr := delayRun r.2 rest
+    (r.1 :: rr.1, rr.2)
+
 /-- `int(math.ceil((sample_rate * delay) / 1000.0 - 0.5))` evaluated exactly. -/
 def delaySamples (fs : Int) (ms : Rat) : Int :=
   (((fs : Rat) * ms) / 1000 - 1 / 2).ceil
@@ -274,15 +282,20 @@ def run (fs : Int) (nch : Nat) : Proc α → List (List (List α)) → Except Er
       | .error e => .error e
       | .ok os => .ok (o :: os)
 
+/-- `p = _track_spec_processor(spec); [p.process(fs, b) for b in parts]` (no simplification) -/
+def runBuilt (fs : Int) (nch : Nat) (s : Spec α) (parts : List (List (List α))) :
+    Except Err (List (List α)) :=
+  match build s with
+  | .error e => .error e
+  | .ok p => run fs nch p parts
+
 /-- `TrackProcessor(spec)` -/
 def trackProcessor [DecidableEq α] (s : Spec α) : Except Err (Proc α) := build (simplify s)
 
 /-- `p = TrackProcessor(spec); [p.process(fs, b) for b in parts]` -/
 def runSpec [DecidableEq α] (fs : Int) (nch : Nat) (s : Spec α) (parts : List (List (List α))) :
     Except Err (List (List α)) :=
-  match trackProcessor s with
-  | .error e => .error e
-  | .ok p => run fs nch p parts
+  runBuilt fs nch (simplify s) parts
 
 /-! ## `MultiTrackProcessor` -/
 
@@ -354,10 +367,54 @@ def meaningList (fs : Int) (nch : Nat) : List (Spec α) → List (List α) → L
   | t :: ts, x => meaning fs nch t x :: meaningList fs nch ts x
 end
 
+/-! ## specs inside the property's quantifier -/
+
+mutual
+/-- The specs the literal meaning is defined for, at sample rate `fs` on `nch` input channels: every
+direct index names a column numpy accepts, every coefficient delay rounds to `≥ 0` samples. For any
+other spec the real code raises (`IndexError`, `AssertionError` from `Delay.__init__`) if the
+offending node survives simplification. -/
+def Spec.wf (fs : Int) (nch : Nat) : Spec α → Bool
+  | .direct i => (chanIdx nch i).isSome
+  | .silent => true
+  | .mix ts => Spec.wfList fs nch ts
+  | .gain t _ => t.wf fs nch
+  | .matrix t _ d =>
+    t.wf fs nch && (match d with | none => true | some ms => decide (0 ≤ delaySamples fs ms))
+def Spec.wfList (fs : Int) (nch : Nat) : List (Spec α) → Bool
+  | [] => true
+  | t :: ts => t.wf fs nch && Spec.wfList fs nch ts
+end
+
+mutual
+/-- No `MixTrackSpec([])` anywhere: what `_track_spec_processor` needs (`MixProcessor` asserts it). -/
+def Spec.buildable : Spec α → Bool
+  | .direct _ => true
+  | .silent => true
+  | .mix ts => !ts.isEmpty && Spec.buildableList ts
+  | .gain t _ => t.buildable
+  | .matrix t _ _ => t.buildable
+def Spec.buildableList : List (Spec α) → Bool
+  | [] => true
+  | t :: ts => t.buildable && Spec.buildableList ts
+end
+
 /-- cut `l` into consecutive pieces of the given lengths -/
 def chunks : List Nat → List α → List (List α)
   | [], _ => []
   | n :: ns, l => l.take n :: chunks ns (l.drop n)
+
+/-- Block-wise stacking of per-spec outputs: block `k` of the result is `np.stack` of block `k` of every run.
+`runs` holds, per spec, the list of its output blocks. -/
+def stackRuns : List Nat → List (List (List α)) → List (List (List α))
+  | [], _ => []
+  | n :: ns, runs => stack n (runs.map (fun r => r.headD [])) :: stackRuns ns (runs.map List.tail)
+
+/-- a coefficient delay applied to a whole signal (`None`: no delay) -/
+def delayOpt (fs : Int) (d : Option Rat) (l : List α) : List α :=
+  match d with
+  | none => l
+  | some ms => delayBy (delaySamples fs ms).toNat l
 
 /-! ## `MatrixAllocationPack.output_channel_allocation` -/
 
